@@ -420,6 +420,39 @@ example : LydsOk (crun rfS rfCx true ⟨0, 1⟩ dpC (dpCopies.map Op.insert)).ly
     ⟨rfl, ⟨trivial, trivial, rfl⟩, Or.inl rfl⟩ rfOps_ok (by decide)
   exact (dup_into_parent_canonical rfS rfCx ⟨0, 1⟩ rfl dpCopies dpC h.2.1 h.2.2 dpCopies_ok).2.2
 
+/-- The `first_llist` fast path of `lyd_dup` as an explicit model path (`Lyds.dupInto`, Sib/RbDel.lean): the first copy is linked
+    at its sorted place; the following copies are APPENDED (`LYD_INSERT_NODE_LAST`, no search, no red-black node) exactly under
+    the condition the C code tests — the first copy became the last sibling and the parent held no instance before — and go
+    through `lyd_insert_node(…, DEFAULT)` otherwise.  For copies that arrive in order (they are the instances of a canonical
+    sibling list) BOTH paths give the one-by-one canonical insertion: the same sibling order as `sins` copy by copy, a record that
+    fits it (`LydsOk`: a valid tree listing the instances, or — fast path — none yet, to be built from all of them by the next
+    `lyds_insert`), and a sorted list.  (Drop the second half of the C's test — mutation M1 — and the code appends copies behind
+    earlier instances without putting them into the existing tree: `LydsOk` fails, and the shape differential `rbp` sees it.) -/
+theorem dup_fastpath_eq_insert {α : Type} (gt : α → α → Bool)
+    (total : ∀ a b, gt a b = false ∨ gt b a = false)
+    (trans : ∀ a b c, gt a b = false → gt b c = false → gt a c = false)
+    (st : Lyds α × List α) (copies : List α) (h : LydsOk st.1 st.2)
+    (hs : st.2.Pairwise (fun a b => gt a b = false)) (hc : copies.Pairwise (fun a b => gt a b = false)) :
+    (Lyds.dupInto gt st copies).2 = copies.foldl (fun l y => sins (fun a b => !gt a b) y l) st.2 ∧
+    LydsOk (Lyds.dupInto gt st copies).1 (Lyds.dupInto gt st copies).2 ∧
+    (Lyds.dupInto gt st copies).2.Pairwise (fun a b => gt a b = false) :=
+  dupInto_ok gt total trans st copies h hs hc
+
+/-- non-vacuity (audit): into an EMPTY parent the three copies are appended and there is no tree (fast path); into a parent that
+    holds 10 and 40 the copies 20, 30, 50 are inserted one by one into its tree (the first copy 20 does not become last) -/
+example : (Lyds.dupInto (fun (d y : Int) => decide (d > y)) (Lyds.empty, []) [20, 30, 50]).2 = [20, 30, 50] ∧
+    size (Lyds.dupInto (fun (d y : Int) => decide (d > y)) (Lyds.empty, []) [20, 30, 50]).1.tree = 0 ∧
+    (Lyds.dupInto (fun (d y : Int) => decide (d > y)) (Lyds.empty, []) [20, 30, 50]).1.n = 3 := by decide
+
+example : let st0 := (Lyds.insert (fun (d y : Int) => decide (d > y)) [10] 40 ⟨T.nil, 1⟩, [10, 40])
+    inorder (Lyds.dupInto (fun (d y : Int) => decide (d > y)) st0 [20, 30, 50]).1.tree = [10, 20, 30, 40, 50] ∧
+    (Lyds.dupInto (fun (d y : Int) => decide (d > y)) st0 [20, 30, 50]).2 = [10, 20, 30, 40, 50] := by decide
+
+/-- … and the case M1 is about: the parent holds 10, 20 (a tree exists), the first copy 30 becomes the last sibling — the fast
+    path must NOT be taken: 40 and 50 are in the tree -/
+example : let st0 := (Lyds.insert (fun (d y : Int) => decide (d > y)) [10] 20 ⟨T.nil, 1⟩, [10, 20])
+    inorder (Lyds.dupInto (fun (d y : Int) => decide (d > y)) st0 [30, 40, 50]).1.tree = [10, 20, 30, 40, 50] := by decide
+
 /-! ## `lyds_merge`: a whole (leaf-)list moved onto the instances already present (Sib/RbMerge.lean)
 
 `mergeTree gt dst dl src sl`: `dl` / `sl` = destination / source instances in sibling order, `dst` / `src` = their trees (`nil` =
